@@ -78,7 +78,7 @@ from .c12 import (
 from ._kit_c13 import (
     qual, deep_resolve, rchain, full_resolve, path_parts, tail_expanded, DictStates, DictVal, arms, truth_under,
     key_read, key_reads_in, is_verbatim_read, field_assigns, recv_is, callable_target, unexpanded_helper_calls, _single_values, const_str,
-    choices_as_branches, RegionPaths, entry_constants, Token, const_eval, UNKNOWN,
+    choices_as_branches, RegionPaths, entry_constants, Token, const_eval, UNKNOWN, sentinels,
 )
 
 R = Rules(
@@ -684,6 +684,8 @@ def _load_model(ctx, target_name):
     if len(loads) == 1:
         o, m.var, m.load_value, m.load_stmt = loads[0]
         m.open_call = o
+        # what json.load / json.loads returns without hooks is plain data (None, bool, numbers, strings, lists, dicts)
+        m.token.plain_data = not m.load_value.keywords
         m.dir = path_parts(ctx.prog, fi, o.args[0])[0]
     cache[target_name] = m
     return m
@@ -753,7 +755,11 @@ def _load_paths(ctx, lm):
                 return bool(_fnf_calls(fi, src)) or src.kind == "raise"
         return True
 
-    lm.rp = RegionPaths(fi, on, env0=entry_constants(fi, cfg, on), special=special, exc_feasible=exc_feasible)
+    # what stands for "no file" may be any object with an identity of its own, not only None / False: a class- or
+    # module-level sentinel (`self._NO_FILE`, `_MISSING = object()`), an Enum member, a local `missing = object()`
+    # (_kit_c13.Sentinels); bound in the handler or before the try, tested with is / == / in afterwards
+    resolve = sentinels(ctx.prog).resolver(fi)
+    lm.rp = RegionPaths(fi, on, env0=entry_constants(fi, cfg, on, resolve=resolve), special=special, exc_feasible=exc_feasible, resolve=resolve)
     lm.rp.paths()
     ctx.need(not lm.rp.cut, "_load loops after opening the state file; the rule follows loop-free code there")
     return lm.rp
@@ -770,13 +776,63 @@ def _loaded_before(lm, p, i):
     return any(j < i and p.completed(j) for j in p.positions(ln))
 
 
+def _discriminating_reads(fnode, var):
+    """Loads of `var` that only ask *which* object it is, never what is in it: an operand of is / is not / == / != /
+    in <display> / not in <display>, the first argument of isinstance(), or the name itself as (part of) a condition
+    (`if x`, `not x`, `x and ...` inside a condition).  Such a read is how the code tells the decoded file from a
+    stand-in (None, a sentinel) in the first place; it reads no key, so it does not matter to the reader/writer
+    agreement what the local holds there."""
+    parent = {}
+    for p_ in walk_no_nested(fnode):
+        for ch in ast.iter_child_nodes(p_):
+            parent[id(ch)] = p_
+    out = set()
+
+    def in_condition(n):
+        """n's value is used for its truth only"""
+        p_ = parent.get(id(n))
+        if isinstance(p_, ast.UnaryOp) and isinstance(p_.op, ast.Not):
+            return True
+        if isinstance(p_, (ast.If, ast.While, ast.IfExp, ast.Assert)) and p_.test is n:
+            return True
+        if isinstance(p_, ast.BoolOp):
+            return in_condition(p_)
+        return False
+
+    for n in walk_no_nested(fnode):
+        if not (isinstance(n, ast.Name) and n.id == var and isinstance(n.ctx, ast.Load)):
+            continue
+        p_ = parent.get(id(n))
+        if isinstance(p_, ast.Compare):
+            operands = [p_.left] + list(p_.comparators)
+            ok = True
+            for i, op in enumerate(p_.ops):
+                l, r = operands[i], operands[i + 1]
+                if l is not n and r is not n:
+                    continue
+                if isinstance(op, (ast.Is, ast.IsNot, ast.Eq, ast.NotEq)):
+                    continue
+                if isinstance(op, (ast.In, ast.NotIn)) and l is n and isinstance(r, (ast.Tuple, ast.List, ast.Set)):
+                    continue
+                ok = False  # `k in x`, `x < y`: reads the content
+            if ok:
+                out.add(id(n))
+        elif isinstance(p_, ast.Call) and isinstance(p_.func, ast.Name) and p_.func.id == "isinstance" and p_.args and p_.args[0] is n:
+            out.add(id(n))
+        elif in_condition(n):
+            out.add(id(n))
+    return out
+
+
 def _reads_see_file(ctx, lm):
-    """wherever _load reads the local the file content was bound to, it holds that content: on every feasible path"""
+    """wherever _load reads the content of the local the file was decoded into, it holds that content: on every
+    feasible path (reads that only discriminate the object -- `x is None`, `x is self._MISSING` -- excepted)"""
     fi, cfg = lm.fi, lm.cfg
     rp = _load_paths(ctx, lm)
+    which = _discriminating_reads(fi.node, lm.var)
     uses = set()
     for n in walk_no_nested(fi.node):
-        if isinstance(n, ast.Name) and n.id == lm.var and isinstance(n.ctx, ast.Load):
+        if isinstance(n, ast.Name) and n.id == lm.var and isinstance(n.ctx, ast.Load) and id(n) not in which:
             uses.update(cfg.locate(n))
     for nid in uses:
         if not cfg.is_reachable(nid):
